@@ -1,0 +1,107 @@
+//go:build verif
+
+package aggregator
+
+import (
+	"crypto/sha256"
+	"encoding/hex"
+	"fmt"
+	"math/big"
+	"sort"
+)
+
+func bigStr(b *big.Int) string {
+	if b == nil {
+		return "<nil>"
+	}
+	return b.String()
+}
+
+// VerifDump returns a canonical (map keys sorted by encoding/json) description of the
+// in-memory aggregator context. Only compiled with the `verif` build tag.
+func (agc *AggregatorContext) VerifDump() map[string]interface{} {
+	if agc == nil {
+		return nil
+	}
+	out := map[string]interface{}{}
+	if agc.params != nil {
+		bz, _ := agc.params.Marshal()
+		h := sha256.Sum256(bz)
+		out["params"] = hex.EncodeToString(h[:8])
+	}
+	vp := map[string]string{}
+	for k, v := range agc.validatorsPower {
+		vp[k] = bigStr(v)
+	}
+	out["validators"] = vp
+	out["totalPower"] = bigStr(agc.totalPower)
+	rounds := map[string]interface{}{}
+	for id, r := range agc.rounds {
+		rounds[fmt.Sprint(id)] = map[string]interface{}{"basedBlock": r.basedBlock, "nextRoundID": r.nextRoundID, "status": int32(r.status)}
+	}
+	out["rounds"] = rounds
+	aggs := map[string]interface{}{}
+	for id, w := range agc.aggregators {
+		m := map[string]interface{}{"sealed": w.sealed, "price": w.price, "decimal": w.decimal}
+		if w.f != nil {
+			vn := map[string]interface{}{}
+			for k, s := range w.f.validatorNonce {
+				vn[k] = append([]int32{}, s.VerifItems()...)
+			}
+			vs := map[string]interface{}{}
+			for k, s := range w.f.validatorSource {
+				vs[k] = append([]string{}, s.VerifItems()...)
+			}
+			m["filter"] = map[string]interface{}{"nonce": vn, "source": vs}
+		}
+		if w.c != nil {
+			ds := map[string]interface{}{}
+			for sid, rl := range w.c.deterministicSource {
+				var rs []interface{}
+				for _, r := range rl.roundPricesList {
+					var ps []string
+					for _, p := range r.prices {
+						ps = append(ps, bigStr(p.price)+"@"+bigStr(p.power))
+					}
+					rs = append(rs, map[string]interface{}{"detID": r.detID, "prices": ps, "price": bigStr(r.price), "timestamp": r.timestamp})
+				}
+				ds[fmt.Sprint(sid)] = rs
+			}
+			m["calculator"] = map[string]interface{}{"ds": ds, "validatorLength": w.c.validatorLength, "totalPower": bigStr(w.c.totalPower)}
+		}
+		if w.a != nil {
+			var reps []interface{}
+			for _, r := range w.a.reports {
+				prices := map[string]interface{}{}
+				for sid, p := range r.prices {
+					prices[fmt.Sprint(sid)] = map[string]interface{}{"price": bigStr(p.price), "decimal": p.decimal, "timestamp": p.timestamp, "detRoundID": p.detRoundID}
+				}
+				reps = append(reps, map[string]interface{}{"validator": r.validator, "price": bigStr(r.price), "power": bigStr(r.power), "prices": prices})
+			}
+			dsp := map[string]string{}
+			for k, v := range w.a.dsPrices {
+				dsp[fmt.Sprint(k)] = v
+			}
+			m["aggregator"] = map[string]interface{}{"finalPrice": bigStr(w.a.finalPrice), "reportPower": bigStr(w.a.reportPower), "totalPower": bigStr(w.a.totalPower), "reports": reps, "dsPrices": dsp}
+		}
+		aggs[fmt.Sprint(id)] = m
+	}
+	out["aggregators"] = aggs
+	return out
+}
+
+// VerifOpenRounds lists feeder -> based block of the rounds that are currently open.
+func (agc *AggregatorContext) VerifOpenRounds() map[uint64]uint64 {
+	out := map[uint64]uint64{}
+	if agc == nil {
+		return out
+	}
+	for id, r := range agc.rounds {
+		if r.status == roundStatusOpen {
+			out[id] = r.basedBlock
+		}
+	}
+	return out
+}
+
+var _ = sort.Strings
